@@ -4,7 +4,7 @@ import math
 import numpy as np
 from hypothesis import strategies as st
 
-from pbt.samples import call, raised, build, sample_spec
+from pbt.samples import derived_from_used_parent, call, raised, build, sample_spec
 
 ID = 'C07'
 LEVEL = 'exploration'
@@ -57,7 +57,7 @@ def _case(draw):
     return dict(spec=spec, sel=sel, spell=[draw(st.sampled_from(['name', 'pos', 'neg', 'name', 'pos'])) for _ in sel], route=route,
                 m=[draw(st.floats(0.85, 1.25)) for _ in sel], b=[draw(st.floats(0.0, 7.0)) for _ in sel],
                 fxn=draw(st.sampled_from(['sqrt', 'pow', 'exp', 'log1p'])), p=draw(st.floats(0.5, 2.0)),
-                gate_channels=draw(st.sampled_from(['all', 'selected'])))
+                gate_channels=draw(st.sampled_from(['all', 'selected'])), derived=draw(st.sampled_from([None, None, None, ['slice', 1], ['slice', 2], ['list', 1]])))
 
 
 def strategy(tier):
@@ -83,7 +83,7 @@ def check(case, obs):
     import FlowCal.gate as gate
     spec = case['spec']
     D = len(spec['widths'])
-    d = build(spec)
+    d = build(spec) if not case.get('derived') else derived_from_used_parent(spec, case['derived'][1], case['derived'][0])
     names = list(d.channels)
     sel = case['sel']
     from pbt.props.c03 import _spell
